@@ -99,12 +99,16 @@ class Scaler(Transformer):
         params = self.get_params()
 
         # Scaling parameters are computed along sample dimensions
+        # Features that are missing throughout have NaN mean and standard deviation.
+        # Neutral values are used for them instead, otherwise values provided at
+        # these features by data passed to .transform() would silently turn into
+        # NaN and the mismatch of missing features could not be detected later on
         if params["with_center"]:
-            self.mean_: DataVar = X.mean(self.sample_dims)
+            self.mean_: DataVar = X.mean(self.sample_dims).fillna(0)
 
         if params["with_std"]:
-            self.std_: DataVar = X.std(self.sample_dims).clip(
-                min=np.finfo(np.float32).eps
+            self.std_: DataVar = (
+                X.std(self.sample_dims).clip(min=np.finfo(np.float32).eps).fillna(1)
             )
 
         if params["with_coslat"]:
